@@ -417,7 +417,52 @@ def make_env(h, use_weather=None):
     b.attrs['ctx'] = ctx
     env = dict(b=b, ctx=ctx, pm=pm, gt=gt, clm=clm, crz=crz, des_end=des_end, ceiling=pm.maximum_altitude, dry=sm - fuel,
                sm=sm, fuel=fuel, m_clm=m_clm, m_crz=m_crz, m_des=m_des, wx=wx)
+    env['frame0'] = frame_snapshot(env)
     return env
+
+
+def _freeze(v):
+    if isinstance(v, dict):
+        return ('dict', tuple((k, id(x)) for k, x in v.items()))
+    if isinstance(v, (list, set, tuple)):
+        return (type(v).__name__, tuple(id(x) for x in v))
+    if isinstance(v, Obj):
+        return ('obj', tuple((k, id(x)) for k, x in v.attrs.items()))
+    return None
+
+
+def frame_snapshot(env):
+    """What a phase of a flight may not change: the builder's own (constructor-time) attributes -- which objects they
+    are and, one level down, what those hold (options, memo tables, lists) -- and the per-flight context's fields other
+    than the ones the phase is there to set."""
+    b, ctx = env['b'], env['ctx']
+    return dict(builder={k: (v, _freeze(v)) for k, v in b.attrs.items()}, ctx={k: v for k, v in ctx.attrs.items()})
+
+
+def frame_clause(h, env, may_set=()):
+    """Frame of a phase method (what C17's history independence needs of its callees): nothing on the builder itself is
+    added, replaced or modified in place, and in the flight context only the named fields are set."""
+    b, ctx, f0 = env['b'], env['ctx'], env['frame0']
+    changed = []
+    for k in set(f0['builder']) | set(b.attrs):
+        if k not in f0['builder']:
+            changed.append(f'builder.{k} added')
+        elif k not in b.attrs:
+            changed.append(f'builder.{k} removed')
+        else:
+            v0, fr0 = f0['builder'][k]
+            if b.attrs[k] is not v0:
+                changed.append(f'builder.{k} replaced')
+            elif k != 'ctx' and _freeze(b.attrs[k]) != fr0:       # the context's own fields are compared below
+                changed.append(f'builder.{k} modified in place')
+    for k in set(f0['ctx']) | set(ctx.attrs):
+        if k in may_set:
+            continue
+        if k not in f0['ctx'] or k not in ctx.attrs or ctx.attrs[k] is not f0['ctx'][k]:
+            v0, v1 = f0['ctx'].get(k), ctx.attrs.get(k)
+            if not (z3.is_expr(v0) and z3.is_expr(v1) and z3.eq(v0, v1)):
+                changed.append(f'context.{k} changed')
+    h.ensure('[frame] builder-left-as-constructed-and-only-the-phases-own-context-fields-set', not changed, note='; '.join(sorted(changed)))
 
 
 def loop_roles(fr):
@@ -533,6 +578,7 @@ def level_change_unit(h, phase):
     delta = install_phase_invariant(h, env, fq, phase, start, end, n)
     base = tr.appended
     e = run_phase(h, env, '_fly_level_change', tr, fp, rule, n, start, end)
+    frame_clause(h, env)
     if e is not None:
         rejection_ok(h, e)
         return
@@ -572,6 +618,7 @@ def cruise_unit(h):
     install_phase_invariant(h, env, L + ':LegacyBuilder.fly_cruise', 'CRUISE', env['crz'], env['crz'], n)
     base = tr.appended
     e = run_phase(h, env, 'fly_cruise', tr)
+    frame_clause(h, env)
     if e is not None:
         rejection_ok(h, e)
         return
@@ -713,6 +760,7 @@ def wrappers_unit(h):
     tr.counts['DESCENT'] = h.int('descent_points')
     before = tr.counts['DESCENT']
     h.method(env['b'], which, tr)
+    frame_clause(h, env)
     if len(calls) != 1:
         h.fail('delegates-to-the-level-change-once', f'{len(calls)} calls')
         return
@@ -1013,8 +1061,10 @@ def calc_mass_unit(h):
     try:
         r = h.method(b, 'calc_starting_mass')
     except PyExc as e:
+        frame_clause(h, env, may_set=('starting_mass', 'total_fuel_mass'))
         rejection_ok(h, e)
         return
+    frame_clause(h, env, may_set=('starting_mass', 'total_fuel_mass'))
     (state, rules, tas, rocd, ff) = pm.calls[-1]
     fuel = env['gt'].total / tas * ff
     h.ensure('evaluated-at-cruise-level-and-maximum-mass', h.I.getattr(state, 'aircraft_mass') == 'max' and rules.name == 'CRUISE')
